@@ -92,6 +92,14 @@ def _mode(index, data, helper_ok, what):
             raise TranslateError(f'{what}: _align_to_ids used but its body is not the recognised one')
         if _dump(elt.args[2]) != _dump(index):
             raise TranslateError(f'{what}: rows are aligned to something else than the index= expression')
+        # the (ids, data) pair handed to the helper must be the variable's own
+        gen = lc.generators[0]
+        pair = (ast.unparse(gen.target), ast.unparse(gen.iter).split('.')[-1],
+                ast.unparse(elt.args[0]), ast.unparse(elt.args[1]))
+        if pair not in (('v', 'values()', 'v.ids', 'v.data'),
+                        ('(k, v)', 'items()', 'self.fem_data.elemental_data[k].ids', 'v'),
+                        ('k, v', 'items()', 'self.fem_data.elemental_data[k].ids', 'v')):
+            raise TranslateError(f'{what}: unrecognised (ids, data) arguments of _align_to_ids: {pair}')
         return 'id'
     raise TranslateError(f'{what}: unrecognised column expression')
 
